@@ -24,5 +24,6 @@ def index_at(t, rate):
 
 
 def on_grid(t, rate):
+    """t falls on a sample position (k / rate as a float is rarely exactly that rational: 1e-9 samples of slack)"""
     x = F(t) * F(rate)
-    return x.denominator == 1
+    return abs(x - round(x)) <= F(1, 10 ** 9)
